@@ -9,6 +9,7 @@ schedules the others.  The interpreter is therefore written in direct style.
 from __future__ import annotations
 
 import ast
+import os
 import collections
 import builtins as _builtins
 import enum
@@ -359,6 +360,7 @@ class Path:
         if hit is not None:
             return hit[0]
         subs = {}
+        nonneg_skip = set()
         seen = set()
         stack = [f]
         has_seq = False
@@ -377,6 +379,12 @@ class Path:
                     subs[i] = (t, z3.Int(f'len!{a.get_id()}'))
                     self.explorer.keep.append(a)
                     continue
+                if t.decl().kind() == z3.Z3_OP_SEQ_NTH and t.sort().kind() == z3.Z3_INT_SORT:
+                    # an element of an integer sequence: an opaque integer for the arithmetic abstraction
+                    subs[i] = (t, z3.Int(f'nth!{i}'))
+                    self.explorer.keep.append(t)
+                    nonneg_skip.add(i)
+                    continue
                 if t.sort().kind() == z3.Z3_SEQ_SORT or t.sort().kind() == z3.Z3_ARRAY_SORT:
                     has_seq = True
                     continue
@@ -386,7 +394,7 @@ class Path:
         else:
             g = z3.substitute(f, *subs.values()) if subs else f
             if subs:
-                g = z3.And(g, *[v >= 0 for (_, v) in subs.values()])
+                g = z3.And(g, *[v >= 0 for k_, (_, v) in subs.items() if k_ not in nonneg_skip])
         cache[key] = (g, f)
         return g
 
@@ -465,6 +473,10 @@ class Path:
         ca = self._abstract(c)
         if ca is not None and self._abs_query(z3.Not(ca)) == z3.unsat:
             r = True
+        elif os.environ.get('PYVC_PROVES_ARITH_ONLY', '1') != '0' and any(self._has_quantifier(p) for p in self.pc):
+            # an arithmetic goal that the arithmetic part of the path condition does not entail: the sequence solver
+            # rarely adds anything here and, with quantified facts around, does not honour its time limit (seconds per query)
+            r = False
         else:
             s = z3.Solver()
             s.set('timeout', timeout)
@@ -484,6 +496,28 @@ class Path:
         cache[key] = r
         return r
 
+    def _has_quantifier(self, f):
+        cache = self.explorer.__dict__.setdefault('quant_cache', {})
+        key = f.get_id()
+        hit = cache.get(key)
+        if hit is not None:
+            return hit[0]
+        found = False
+        seen = set()
+        stack = [f]
+        while stack and not found:
+            t = stack.pop()
+            i = t.get_id()
+            if i in seen:
+                continue
+            seen.add(i)
+            if z3.is_quantifier(t):
+                found = True
+            elif z3.is_app(t):
+                stack.extend(t.children())
+        cache[key] = (found, f)
+        return found
+
     def force(self, lv):
         """resolve a lazily chosen OneOf alternative (a decision)"""
         if lv.lid in self.lazy:
@@ -492,16 +526,17 @@ class Path:
         o = lv.options[i]
         from . import contracts as _C
 
-        first_new = self.next_oid
+        first = self.next_oid
         v = self.cfg.fresh(self, o, lv.hint) if isinstance(o, _C.T) else self.import_native(o)
         self.lazy[lv.lid] = v
-        # objects of a lazily chosen alternative belong to the pre-state: the counter-model of the path is concretised
-        # from prestate['heap'] (replay / CPython cross-check), which was copied before this alternative was chosen
-        pre = getattr(self, 'prestate', None)
-        if pre is not None:
-            for oid in range(first_new, self.next_oid):
-                if oid in self.heap and oid not in pre['heap']:
-                    pre['heap'][oid] = self.heap[oid].clone()
+        # objects built for a lazily chosen pre-state alternative belong to the pre-state: they exist in every
+        # snapshot taken so far (old views, replay of the entry state)
+        for oid in range(first, self.next_oid):
+            for snap in self.snapshots.values():
+                snap.setdefault(oid, self.heap[oid].clone())
+            for st in (getattr(self, 'prestate', None), getattr(self, 'headstate', None)):
+                if st is not None:
+                    st['heap'].setdefault(oid, self.heap[oid].clone())
         return v
 
     def decide(self, conds, why=''):
